@@ -65,7 +65,10 @@ def commands(root_ok, root_bad):
             "ascmhl create on an altered tree (exit 11)": ("ascmhl", "create", ["create", root_bad, "-h", "md5"]),
             "ascmhl-debug hash (exit 0)": ("ascmhl_debug", "hash", ["hash", os.path.join(root_ok, "a.txt"), "-h", "md5"]),
             "ascmhl-debug verify on an altered tree (exit 11)": ("ascmhl_debug", "verify", ["verify", root_bad]),
-            "ascmhl diff (exit 0)": ("ascmhl", "diff", ["diff", root_ok])}
+            "ascmhl diff (exit 0)": ("ascmhl", "diff", ["diff", root_ok]),
+            # verbose runs: the library's logger writes to stdout and is switched on by the command itself
+            "ascmhl info -v (exit 0)": ("ascmhl", "info", ["info", "-v", root_ok]),
+            "ascmhl-debug verify -v (exit 0)": ("ascmhl_debug", "verify", ["verify", "-v", root_ok])}
 
 
 def prepare(ctx):
@@ -88,6 +91,8 @@ def eval_case(ctx, case):
     sub.NOW[0] = sub.NOW0
     # baseline: the same command without the group's updater
     sub.materialise(bad, ops.edit(sealed, ["write", "a.txt", b"ALTERED"]))
+    import ascmhl.logger as _lg
+    _lg.verbose_logging = False
     b = sub.run_inproc(cname, args[1:], now=sub.NOW0)
     base_exit, base_out = b.exit, b.out
     sig0 = {"answer_class": case["answer"] if case["net_ready"] else "never-answers"}
@@ -127,6 +132,7 @@ def eval_case(ctx, case):
         if cname == "create":
             sub.materialise(bad, ops.edit(sealed, ["write", "a.txt", b"ALTERED"]))
         sub.NOW[0] = sub.NOW0
+        _lg.verbose_logging = False   # module-global of the library: every execution starts like a fresh process
         return real_run_one(choices, answer, net_ready, group_, args_)
     sched.run_one = run_one
     try:
@@ -197,7 +203,7 @@ def main(tier, seed):
     engine.selftest(eng)
     A = list(answers())
     cmds = ["ascmhl info (exit 0)", "ascmhl create on an altered tree (exit 11)", "ascmhl-debug hash (exit 0)",
-            "ascmhl-debug verify on an altered tree (exit 11)"]
+            "ascmhl-debug verify on an altered tree (exit 11)", "ascmhl info -v (exit 0)", "ascmhl-debug verify -v (exit 0)"]
     cases = []
     if tier == "quick":
         for a in A:
